@@ -3,7 +3,7 @@ from plint import guards
 from plint.flow import Flow
 from plint.ir import calls, strip_casts, ap, root_var, cv, line, show, walk
 from plint.units import AnalysisBroken
-from plint.wiring import check_wrapper, handle_is_param_field, callee_of
+from plint.wiring import check_wrapper, handle_is_param_field, callee_of, creation_attributes
 
 BLOCKING = {"pthread_mutex_lock", "pthread_cond_wait", "pthread_cond_timedwait", "p_mutex_lock",
             "p_cond_variable_wait", "sem_wait", "p_uthread_sleep", "usleep", "nanosleep", "sched_yield"}
@@ -48,6 +48,14 @@ def run(prog, rep):
     rep.ob("C01.1", fn, "noloop", not fn.loops(), "p_mutex_trylock contains no loop" if not fn.loops() else "p_mutex_trylock loops",
            fn.loc[0])
 
+    # creation: a default (non-recursive, non-robust) mutex.  A recursive mutex lets the owner's second lock / trylock succeed and is
+    # not fully released by pthread_cond_wait; a robust one reports EOWNERDEAD for an acquisition that did happen
+    for (f, c, bad) in creation_attributes(mu, "pthread_mutex_init", "pthread_mutexattr_",
+                                           {"pthread_mutexattr_setpshared": None, "pthread_mutexattr_settype": {0, 2},
+                                            "pthread_mutexattr_setprotocol": None, "pthread_mutexattr_setprioceiling": None}):
+        rep.ob("C01.1", f, "init:attributes", bad is None, "the native mutex is created with default (non-recursive, non-robust) attributes" if bad is None else
+               "line %d: the native mutex is created with %s (%s): lock / trylock results no longer mean what the wrappers report" % (
+                   line(bad), bad.get("callee"), show(bad["args"][1]) if len(bad["args"]) > 1 else ""), bad or c)
     # sim spinlock wrappers
     sim = prog.unit("pspinlock-sim.c")
     for fname, native, forb in [("p_spinlock_lock", "p_mutex_lock", ()),
@@ -61,7 +69,7 @@ def run(prog, rep):
         rep.ob("C01.1", fn, "wire:only:" + native, not bad,
                "%s delegates only to %s" % (fname, native) if not bad else "%s also calls %s" % (fname, bad[0].get("callee")),
                bad[0] if bad else fn.loc[0])
-    rep.floor("C01.1", 12, "3 mutex + 3 sim-spinlock wrappers")
+    rep.floor("C01.1", 13, "3 mutex + 3 sim-spinlock wrappers + creation")
 
     # C01.5 sim: mutex field written only in the constructor, from p_mutex_new
     writers = []
@@ -321,6 +329,12 @@ def check_unlock(rep, u, fn, enc):
 RENAME_LOCALS = ['src/pmutex-posix.c', 'src/pspinlock-c11.c', 'src/pspinlock-sync.c', 'src/pspinlock-sim.c']
 
 SELFTEST = [
+    dict(id="mutex-created-recursive", file="src/pmutex-posix.c", expect="C01.1",
+         old="\tif (P_UNLIKELY (pthread_mutex_init (&ret->hdl, NULL) != 0)) {",
+         new="\tpthread_mutexattr_t attr;\n\tpthread_mutexattr_init (&attr);\n\tpthread_mutexattr_settype (&attr, PTHREAD_MUTEX_RECURSIVE);\n\tif (P_UNLIKELY (pthread_mutex_init (&ret->hdl, &attr) != 0)) {"),
+    dict(id="mutex-created-errorcheck-neutral", file="src/pmutex-posix.c", expect=None,
+         old="\tif (P_UNLIKELY (pthread_mutex_init (&ret->hdl, NULL) != 0)) {",
+         new="\tpthread_mutexattr_t attr;\n\tpthread_mutexattr_init (&attr);\n\tpthread_mutexattr_settype (&attr, PTHREAD_MUTEX_ERRORCHECK);\n\tif (P_UNLIKELY (pthread_mutex_init (&ret->hdl, &attr) != 0)) {"),
     dict(id="c11-drop-reset", file="src/pspinlock-c11.c", expect="C01.2",
          old="\tdo {\n\t\ttmp_int = 0;\n\t} while (", new="\ttmp_int = 0;\n\tdo {\n\t} while ("),
     dict(id="c11-desired-0", file="src/pspinlock-c11.c", expect="C01.2", count=1,
